@@ -65,9 +65,22 @@ def run_op(nodes, src, n, kind, op, arg, case):
     search_new = None
     delim_search = False
     try:
-        if op == 'rename':
+        if op == 'rename-sequence':
+            # several renames in a row (names built at run time), a read in between, the last one counts
+            old_count = soup.count(old_name)
+            first = ''.join([arg[:3], 'a'])
+            t.name = first
+            str(soup)
+            t.name = 'lem'
+            del first
+            t.name = ''.join([arg[:3], 'b'])
+            arg = arg[:3] + 'b'
+            op = 'rename'
+            case['arg'] = arg
+        elif op == 'rename':
             old_count = soup.count(old_name)
             t.name = arg
+        if op == 'rename':
             if n.kind == 'item':
                 a = n.span[0]
                 want_text = src[:a] + '\\' + arg + src[a + 5:]
@@ -122,6 +135,12 @@ def run_op(nodes, src, n, kind, op, arg, case):
             elif op == 'args-reassign-identity':
                 order = list(range(k))
                 t.args = t.args
+            elif op == 'args-from-reversed-iterator':
+                order = list(range(k))[::-1]
+                t.args = TexArgs(reversed(cur))
+            elif op == 'args-from-generator':
+                order = list(range(k))
+                t.args = TexArgs(a for a in cur)
             elif op == 'args-fullslice-then-restore':
                 # a full slice is an independent argument list: assigning it back later restores the original order
                 order = list(range(k))
@@ -206,6 +225,8 @@ def check_doc(nodes, src, case, res):
             ops.append(('rename', NEW_CMD[k % 3]))
         elif kind == 'env':
             ops.append(('rename', NEW_ENV[k % 2]))
+            if k % 3 == 0:
+                ops.append(('rename-sequence', ['thmx', 'corx', 'defx'][k % 3]))
             if not n.args and n.body and len(n.body) == 1 and n.body[0].kind == 'text' and PLAIN_TEXT.match(n.body[0].text) \
                     and n.body[0].text.strip():
                 ops.append(('string', STRINGS[k % 3]))
@@ -220,7 +241,8 @@ def check_doc(nodes, src, case, res):
             pool = [('args-reversed', None), ('args-prefix', na - 1), ('args-tail', None), ('args-reverse-inplace', None),
                     ('args-reverse-reassign-own-list', None), ('args-reassign-identity', None), ('args-step', None),
                     ('args-swap-ends-inplace', None), ('args-slice-assign-inplace', None), ('args-sort-inplace', None),
-                    ('args-fullslice-then-restore', None), ('args-edit-unassigned-slice', None)]
+                    ('args-fullslice-then-restore', None), ('args-edit-unassigned-slice', None),
+                    ('args-from-reversed-iterator', None), ('args-from-generator', None)]
             if na >= 3:
                 pool.append(('args-permute', tuple([1, 2, 0] + list(range(3, na)))))
             ops.append(pool[k % len(pool)])
